@@ -61,6 +61,10 @@ func drawC07(rt *rapid.T, tier string) C07Scenario {
 		Calm:          rapid.IntRange(0, 2).Draw(rt, "calm"),
 		TapeSeed:      rapid.Uint64().Draw(rt, "tape_seed"),
 	}
+	if tier != "thorough" && rapid.IntRange(0, 79).Draw(rt, "quick_big") == 0 {
+		// a few big files also in the quick tier: the bulk loader must split into several buckets
+		sc.Records, sc.FreeRunning, sc.Builder, sc.Target = 64000+rapid.IntRange(0, 8000).Draw(rt, "big"), true, true, rapid.SampledFrom([]string{"rdb1", "rdb2"}).Draw(rt, "big_target")
+	}
 	if tier == "thorough" {
 		switch rapid.IntRange(0, 29).Draw(rt, "size_class") {
 		case 0:
